@@ -2672,7 +2672,9 @@ where
                 }
                 packet.props().iter().for_each(|prop| match prop {
                     Property::TopicAliasMaximum(p) => {
-                        self.topic_alias_send = Some(TopicAliasSend::new(p.val()));
+                        if p.val() != 0 {
+                            self.topic_alias_send = Some(TopicAliasSend::new(p.val()));
+                        }
                     }
                     Property::ReceiveMaximum(p) => {
                         self.publish_send_max = Some(p.val());
